@@ -184,7 +184,10 @@ func (s *Scenario) Run(deadline time.Time) drv.Result {
 		// determinism guard: the schedule must replay to the same verdict twice
 		tr1, v1, o1, err1 := e.Replay(v.Choices)
 		_, v2, o2, err2 := e.Replay(v.Choices)
-		if err1 != nil || err2 != nil || v1 != v.Msg || v2 != v.Msg || o1 != o2 {
+		s0, _ := split(v.Msg)
+		s1, _ := split(v1)
+		s2, _ := split(v2)
+		if err1 != nil || err2 != nil || s1 != s0 || s2 != s0 || o1 != o2 {
 			panic(fmt.Sprintf("NONDETERMINISM in %s: verdicts %q / %q / %q errs %v %v", s.Name, v.Msg, v1, v2, err1, err2))
 		}
 		r.Viols = append(r.Viols, drv.Viol{Sig: sig, Msg: msg, Replay: replayData{v.Choices}, Trace: tr1})
